@@ -221,7 +221,7 @@ func TestC29(t *testing.T) {
 		}
 		return id.Str()
 	}
-	histories := mon.Pick(120, 1500)
+	histories := mon.Pick(120, 4000)
 	for i := 0; i < histories; i++ {
 		rg := Sub("C29", i)
 		roller, err := tls.NewRoller()
